@@ -140,6 +140,19 @@ fn build(ch: &mut Chooser, fmt: &str) -> (Vec<u8>, Meta, Vec<(String, String)>) 
     }
 }
 
+/// same names in the same order; for the token-encoded formats the decoded reference may or may not quote the sheet name
+fn names_agree(fmt: &str, got: &[(String, String)], exp: &[(String, String)]) -> bool {
+    if got.len() != exp.len() { return false; }
+    got.iter().zip(exp.iter()).all(|(g, e)| {
+        if g.0 != e.0 { return false; }
+        if g.1 == e.1 { return true; }
+        if fmt == "xls" || fmt == "xlsb" {
+            if let Some(sheet) = e.1.strip_suffix("!$B$2") { return g.1 == format!("'{}'!$B$2", sheet.replace('\'', "''")); }
+        }
+        false
+    })
+}
+
 type Obs = (Vec<Sheet>, Vec<String>, Vec<(String, String)>, Vec<(String, Data)>);
 
 fn read(fmt: &str, bytes: &[u8], m: &Meta) -> Result<Obs, String> {
@@ -178,7 +191,7 @@ fn run_case(rep: &Report, ch: &mut Chooser, fmt: &str, local: &mut Vec<(u64, boo
                 let which = meta.iter().zip(exp_meta.iter()).find(|(a, b)| a != b).map(|(a, b)| if a.name != b.name { "name".to_string() } else if a.visible != b.visible { format!("visibility-{:?}", b.visible) } else { format!("kind-{:?}", b.typ) }).unwrap_or("count".into());
                 rep.fail(&format!("{fmt}/sheets-metadata/{which}"), &format!("sheets_metadata {meta:?}, expected {exp_meta:?}"), replay);
             }
-            else if defined != &expn { rep.fail(&format!("{fmt}/defined-names"), &format!("defined_names {defined:?}, expected {expn:?}"), replay); }
+            else if !names_agree(fmt, defined, &expn) { rep.fail(&format!("{fmt}/defined-names"), &format!("defined_names {defined:?}, expected {expn:?}"), replay); }
             else if fmt != "ods" {
                 let exp = Data::DateTime(ExcelDateTime::new(SERIAL, ExcelDateTimeType::DateTime, m.is1904));
                 for (n, d) in cells { if *d != exp { rep.fail(&format!("{fmt}/date-system"), &format!("sheet {n}: date cell {d:?}, expected {exp:?}"), replay); break; } }
